@@ -8,6 +8,12 @@ use std::fmt::Write;
 
 pub type Id = u32;
 
+impl std::fmt::Display for V {
+    fn fmt(&self, f: &mut std::fmt::Formatter<'_>) -> std::fmt::Result {
+        f.write_str(&self.show())
+    }
+}
+
 /// Value domain of every generated parser
 #[derive(Clone, Debug, PartialEq, Eq, Hash)]
 pub enum V {
